@@ -61,6 +61,12 @@ impl Backing for datacake_sqlite::SqliteStorage {
     }
 }
 
+impl Backing for datacake_lmdb::LmdbStorage {
+    fn injected_error() -> heed::Error {
+        heed::Error::Io(std::io::Error::new(std::io::ErrorKind::Other, "injected storage failure"))
+    }
+}
+
 /// rusqlite is not a direct dependency of the harness: name its error type
 /// through the storage trait.
 pub mod rusqlite_error {
